@@ -211,8 +211,18 @@ def run_shard(ctx):
     done = 0
     while done < budget:
         bits = rng.choice([64, 64, 32])
-        lines = [asmgen.template(rng, bits) for _ in range(120)]
-        r = asmgen.assemble(ws, lines, bits)
+        if rng.random() < 0.25:
+            # disassembly of random / biased bytes: memory operands in encodings a compiler rarely emits (%riz / %eiz as index, redundant
+            # SIB bytes, 32-bit registers in 64-bit code, large displacements)
+            blob, secs, bits = objd.random_object(rng, size=(300, 1500))
+            rc, out, _ = objd.disassemble(ws.write("o.bin", blob))
+            if rc != 0:
+                continue
+            ctx.event("random_object_listings_used")
+            r = (None, out)
+        else:
+            lines = [asmgen.template(rng, bits) for _ in range(120)]
+            r = asmgen.assemble(ws, lines, bits)
         if r is None:
             ctx.inconc("as refused a template batch")
             continue
